@@ -318,3 +318,106 @@ func c10FixedConc() []c10Case {
 	}
 	return out
 }
+
+// c10Storm: G goroutines, released together, each record N distinct values on
+// the same, already existing timer (each through a handle it asked the scope
+// for). When all Records have returned every value must have been delivered
+// exactly once, and each goroutine's values in the order it recorded them
+// (each delivery is made before its Record returns). Returns "" or the failure.
+func c10Storm(c *c10Case) string {
+	G, N := c.Storm[0], c.Storm[1]
+	if G < 1 || N < 1 || G*N > 1<<22 {
+		return ""
+	}
+	log := &Log{}
+	root, ts := c10Root(c, log)
+	bk := newBook(c)
+	scopes := []tally.Scope{root}
+	for _, o := range c.Ops {
+		switch o.Op {
+		case "sub":
+			scopes = append(scopes, scopes[o.H].SubScope(string(o.Name)))
+		case "tag":
+			scopes = append(scopes, scopes[o.H].Tagged(tagsOf(o.Tags)))
+		default:
+			continue
+		}
+		bk.apply(o, func(int) int64 { return 0 }, 0)
+	}
+	sc := scopes[len(scopes)-1]
+	m := bk.scopes[len(bk.scopes)-1].metric("t")
+	sc.Timer("t").Record(-1) // the timer exists, and works, before the race
+	start := make(chan struct{})
+	var wg sync.WaitGroup
+	for g := 0; g < G; g++ {
+		wg.Add(1)
+		go func(g int) {
+			defer wg.Done()
+			t := sc.Timer("t")
+			<-start
+			for k := 0; k < N; k++ {
+				t.Record(time.Duration(g*N + k))
+			}
+		}(g)
+	}
+	close(start)
+	wg.Wait()
+	var vals []int64
+	if ts != nil {
+		for _, t := range ts.Snapshot().Timers() {
+			if sameStrs(nameTags(t.Name(), t.Tags()), m.strs) {
+				for _, v := range t.Values() {
+					vals = append(vals, int64(v))
+				}
+			}
+		}
+	} else {
+		ids := map[int64]bool{}
+		for _, e := range log.Snapshot() {
+			switch {
+			case e.K == 13 && sameStrs(e.S, m.strs):
+				ids[e.I[0]] = true
+			case e.K == 3 && sameStrs(e.S, m.strs):
+				vals = append(vals, e.I[0])
+			case e.K == 23 && ids[e.I[0]]:
+				vals = append(vals, e.I[1])
+			}
+		}
+	}
+	what := fmt.Sprintf("%d goroutines x %d Records at the same time on the existing timer %q: %d Records returned, %d deliveries", G, N, m.strs, G*N+1, len(vals))
+	seen := make([]int, G*N)
+	last := make([]int64, G)
+	for g := range last {
+		last[g] = -1
+	}
+	first := 0
+	for _, v := range vals {
+		if v == -1 {
+			first++
+			continue
+		}
+		if v < 0 || v >= int64(G*N) {
+			return fmt.Sprintf("%s; value %d was never recorded", what, v)
+		}
+		seen[v]++
+	}
+	if first != 1 {
+		return fmt.Sprintf("%s; the value recorded before the race was delivered %d times", what, first)
+	}
+	for v, n := range seen {
+		if n != 1 {
+			return fmt.Sprintf("%s; value %d (goroutine %d's Record number %d) was delivered %d times", what, v, v/N, v%N+1, n)
+		}
+	}
+	for _, v := range vals {
+		if v < 0 {
+			continue
+		}
+		g := v / int64(N)
+		if v <= last[g] {
+			return fmt.Sprintf("%s; goroutine %d recorded %d before %d but they were delivered in the opposite order", what, g, last[g], v)
+		}
+		last[g] = v
+	}
+	return ""
+}
